@@ -309,6 +309,22 @@ def ins_case(item):
                     win.stop(extra_frames=[sys._getframe(1)])
         return o_fin(ns, *a, **k)
 
+    o_init = INS.initialise
+
+    def init(ns, *a, **k):
+        if target == "init" and not state["started"]:
+            # window over the initialisation (initial samples, first evidence update)
+            state["started"] = True
+            state["existed"] = os.path.exists(rf)
+            win.start(extra_frames=[sys._getframe(1)])
+            try:
+                return o_init(ns, *a, **k)
+            finally:
+                if not state["stopped"]:
+                    state["stopped"] = True
+                    win.stop(extra_frames=[sys._getframe(1)])
+        return o_init(ns, *a, **k)
+
     import nessai.samplers.base as sbase
 
     o_dump = sbase.safe_file_dump
@@ -323,7 +339,7 @@ def ins_case(item):
         return r
 
     sbase.safe_file_dump = dump
-    INS._compute_gradient, INS.finalise = grad, fin
+    INS._compute_gradient, INS.finalise, INS.initialise = grad, fin, init
     res = dict(errs=[], fired=None, events=None, info={"phase": "ins"})
     model = make("G2")
     exit_code = None
@@ -341,14 +357,14 @@ def ins_case(item):
         finally:
             win.stop()
     except Exception as e:
-        INS._compute_gradient, INS.finalise = o_grad, o_fin
+        INS._compute_gradient, INS.finalise, INS.initialise = o_grad, o_fin, o_init
         sbase.safe_file_dump = o_dump
         for s, h in old_handlers.items():
             signal.signal(s, h)
         shutil.rmtree(out, ignore_errors=True)
         return dict(errs=[(f"harness:{type(e).__name__}", str(e)[:300])], fired=None, events=None, info={}, harness=True)
     finally:
-        INS._compute_gradient, INS.finalise = o_grad, o_fin
+        INS._compute_gradient, INS.finalise, INS.initialise = o_grad, o_fin, o_init
         sbase.safe_file_dump = o_dump
     for s, h in old_handlers.items():
         signal.signal(s, h)
@@ -405,7 +421,7 @@ def ins_case(item):
 def run(ctx):
     seed = ctx.seed
     std_targets = ["init", 5, 21, 23, "fin"] if ctx.quick else ["init", 1, 5, 20, 21, 22, 23, 30, 45, "fin"]
-    ins_targets = [1, "fin"] if ctx.quick else [0, 1, 2, "fin"]
+    ins_targets = ["init", 1, "fin"] if ctx.quick else ["init", 0, 1, 2, "fin"]
     # counting runs
     count_items = [("std", (seed, t, None, signal.SIGTERM, False)) for t in std_targets] + [("ins", (seed, t, None, signal.SIGTERM, False)) for t in ins_targets]
     if not ctx.quick:
@@ -442,7 +458,7 @@ def run(ctx):
             ctx.violation(f"{kind}:inconsistent-after-signal@{site}", f"{c}: {d} | signal {int(item[3])} before line [{site}] (iteration {item[1]}, frames {chain})", {"kind": kind, "item": [x if isinstance(x, (bool, str)) or x is None else int(x) for x in item]})
             break
     ctx.set("distinct_nontrivial", len(site_classes))
-    ctx.set("rule", "signal handler invoked before every line event of every nessai frame inside the chosen iterations, inside the initialisation of a fresh standard run ('init': NestedSampler.initialise, i.e. proposals and initial live points) and inside the finalisation of both samplers ('fin': from entry to NestedSampler.finalise / ImportanceNestedSampler.finalise until it returns, including the forced final checkpoint write) (loop bodies de-duplicated to first/second/last occurrence of each (function, line)); thorough adds more iterations, opcode-level events in consume_sample / insert_live_point / _NSIntegralState.increment and SIGINT/SIGALRM on a sub-lattice. Distinct/non-trivial: distinct sampler-level statements (site keys) interrupted")
+    ctx.set("rule", "signal handler invoked before every line event of every nessai frame inside the chosen iterations, inside the initialisation of a fresh run of either sampler ('init': NestedSampler.initialise / ImportanceNestedSampler.initialise, i.e. proposals and initial points) and inside the finalisation of both samplers ('fin': from entry to NestedSampler.finalise / ImportanceNestedSampler.finalise until it returns, including the forced final checkpoint write) (loop bodies de-duplicated to first/second/last occurrence of each (function, line)); thorough adds more iterations, opcode-level events in consume_sample / insert_live_point / _NSIntegralState.increment and SIGINT/SIGALRM on a sub-lattice. Distinct/non-trivial: distinct sampler-level statements (site keys) interrupted")
     ctx.set("bounds", dict(std_iterations=std_targets, ins_iterations=ins_targets, signals=["SIGTERM"] + ([] if ctx.quick else ["SIGINT", "SIGALRM"])))
     ctx.set("exhaustive", True)
     ctx.assume(
